@@ -11,6 +11,7 @@ import (
 	"context"
 	"fmt"
 	"os"
+	"path"
 	"path/filepath"
 	"sort"
 	"strings"
@@ -24,6 +25,7 @@ import (
 	"github.com/bufbuild/buf/private/bufpkg/bufparse"
 	"github.com/bufbuild/buf/private/gen/data/datawkt"
 	"github.com/bufbuild/buf/private/pkg/app"
+	"github.com/bufbuild/buf/private/pkg/osext"
 	"github.com/bufbuild/buf/private/pkg/slogext"
 	"github.com/bufbuild/buf/private/pkg/storage"
 	"github.com/bufbuild/buf/private/pkg/storage/storagemem"
@@ -36,8 +38,8 @@ import (
 	"github.com/bufbuild/verif/simfs"
 	"github.com/bufbuild/verif/tape"
 	"github.com/bufbuild/verif/wsgen"
-	"google.golang.org/protobuf/proto"
 	"google.golang.org/protobuf/encoding/protowire"
+	"google.golang.org/protobuf/proto"
 	"google.golang.org/protobuf/reflect/protoreflect"
 	"google.golang.org/protobuf/types/descriptorpb"
 	"google.golang.org/protobuf/types/pluginpb"
@@ -52,7 +54,7 @@ type pluginSpec struct {
 	includeWKT     bool
 	behaviour      string // normal | insert | insert-missing | duplicate | duplicate-spelling | duplicate-nested | hostile | error
 	hostileName    string
-	extraFile      string // an additional file this plugin produces (single-request plugins only)
+	extraFile      string   // an additional file this plugin produces (single-request plugins only)
 	tag            string   // names this plugin's files: plugins with different outs may share one
 	insertInto     int      // behaviour insert: index of the earlier plugin (same out) whose file receives the insertions
 	points         []string // behaviour insert: the insertion points used, in order
@@ -114,6 +116,7 @@ type gsim struct {
 	base       string
 	completion []int
 	clean      bool
+	cwdMode    bool
 	hostileRun bool
 }
 
@@ -253,7 +256,10 @@ func (p *simProvider) NewReadWriteBucket(rootPath string, options ...storageos.R
 	if err != nil {
 		return nil, err
 	}
-	rel, _ := filepath.Rel(p.m.base, rootPath)
+	rel := rootPath
+	if filepath.IsAbs(rootPath) {
+		rel, _ = filepath.Rel(p.m.base, rootPath)
+	}
 	label := strings.ReplaceAll(filepath.ToSlash(rel), strings.TrimPrefix(filepath.ToSlash(p.m.env.Scratch), "/"), "<scratch>")
 	return &simfs.Bucket{S: p.m.s, U: raw, Name: "out[" + label + "]"}, nil
 }
@@ -326,7 +332,7 @@ func (m *gsim) drawPlugins() string {
 		p.includeWKT = p.includeImports && m.tp.Draw("g.wkt", 2) == 1
 		if i > 0 && m.tp.Draw("g.sharetag", 4) == 3 {
 			// the same relative file names as an earlier plugin that writes somewhere else
-			if q := m.plugins[m.tp.Draw("g.tagof", i)]; outRel(q.out) != outRel(p.out) {
+			if q := m.plugins[m.tp.Draw("g.tagof", i)]; m.outRel(q.out) != m.outRel(p.out) {
 				p.tag = q.tag
 			}
 		}
@@ -364,6 +370,10 @@ func (m *gsim) drawPlugins() string {
 						p.points = drawPoints(m.tp)
 					}
 					p.out = prev.out
+					if m.cwdMode && !filepath.IsAbs(prev.out) && m.tp.Draw("g.absspelling", 2) == 1 {
+						// the same directory, given as an absolute path
+						p.out = filepath.Join(m.base, prev.out)
+					}
 					p.tag = p.name
 					// and receive the same files: same strategy and import settings
 					p.strategy, p.includeImports, p.includeWKT = prev.strategy, prev.includeImports, prev.includeWKT
@@ -426,10 +436,24 @@ func drawPoints(tp *tape.Tape) []string {
 	return out
 }
 
-// outRel is where a plugin's out ends up below the base out directory: buf joins the base and
-// the configured out, so an absolute out lands at <base>/<abs path>.
-func outRel(out string) string {
+// outRel is where a plugin's out ends up, relative to the project directory. With a base out
+// directory buf joins the base and the configured out, so an absolute out lands at
+// <base>/<abs path>; when the project directory is the working directory and the base is ".",
+// an absolute out is that directory itself (possibly the same directory as a relative out).
+func (m *gsim) outRel(out string) string {
+	if m.cwdMode && filepath.IsAbs(out) {
+		rel, err := filepath.Rel(m.base, out)
+		if err != nil {
+			panic(err)
+		}
+		return filepath.ToSlash(rel)
+	}
 	return strings.TrimPrefix(filepath.ToSlash(filepath.Clean(filepath.Join("/", out))), "/")
+}
+
+// outKey is outRel as a key of the recorded directory states (relative to the work directory).
+func (m *gsim) outKey(out string) string {
+	return path.Clean("proj/" + m.outRel(out))
 }
 
 func pluginNameOf(configName string) string {
@@ -468,7 +492,7 @@ func (m *gsim) referenceTree() (map[string]string, error) {
 		seenInPlugin := map[string]bool{}
 		for _, first := range firsts {
 			for _, f := range m.produced[p.index][first] {
-				full := filepath.ToSlash(filepath.Join(outRel(p.out), f.name))
+				full := path.Clean(m.outRel(p.out) + "/" + filepath.ToSlash(f.name))
 				if f.insertion != "" {
 					if !producedIn["<all>"][full] {
 						return nil, fmt.Errorf("insertion point into %s which was not produced", full)
@@ -525,6 +549,10 @@ func Run(tp *tape.Tape, env *engine.Env) *engine.Outcome {
 		s.Drain()
 		return engine.FromSim(s)
 	}
+	m.base = filepath.Join(env.Scratch, "work", "proj")
+	// sometimes the project directory is the working directory and the base out directory is ".":
+	// a relative and an absolute out can then be the same directory
+	m.cwdMode = tp.Draw("g.cwd", 3) == 2
 	yaml := m.drawPlugins()
 	genFile, err := bufconfig.ReadBufGenYAMLFile(strings.NewReader(yaml))
 	if err != nil {
@@ -541,7 +569,6 @@ func Run(tp *tape.Tape, env *engine.Env) *engine.Outcome {
 		return nil
 	})
 	defer bufprotopluginexec.SetVerifHandlerFunc(nil)
-	m.base = filepath.Join(env.Scratch, "work", "proj")
 	if err := os.MkdirAll(m.base, 0o755); err != nil {
 		panic(err)
 	}
@@ -567,12 +594,25 @@ func Run(tp *tape.Tape, env *engine.Env) *engine.Outcome {
 	}
 	s.Event("case files=%d targets=%d plugins=%v par=%d", len(image.Files()), len(m.ws.Targets()), specs, par)
 
+	if m.cwdMode {
+		if wd, err := os.Getwd(); err == nil {
+			defer func() { _ = osext.Chdir(wd) }()
+		}
+		if err := osext.Chdir(m.base); err != nil {
+			panic(err)
+		}
+		s.Probe("project-directory-is-working-directory")
+	}
 	var genErr error
 	proc := s.Proc("gen")
 	s.Spawn(proc, func(ctx context.Context) {
 		generator := bufgen.NewGenerator(slogext.NopLogger, &simProvider{m: m}, nil)
 		container := app.NewContainer(map[string]string{}, strings.NewReader(""), &bytes.Buffer{}, &bytes.Buffer{})
-		genErr = generator.Generate(ctx, container, genFile.GenerateConfig(), []bufimage.Image{image}, bufgen.GenerateWithBaseOutDirPath(m.base))
+		baseOut := m.base
+		if m.cwdMode {
+			baseOut = "."
+		}
+		genErr = generator.Generate(ctx, container, genFile.GenerateConfig(), []bufimage.Image{image}, bufgen.GenerateWithBaseOutDirPath(baseOut))
 	})
 	s.Run()
 	if s.Deadlocked {
@@ -669,7 +709,7 @@ func Run(tp *tape.Tape, env *engine.Env) *engine.Outcome {
 		inOut := false
 		if m.clean {
 			for _, p := range m.plugins {
-				if strings.HasPrefix(k, "proj/"+outRel(p.out)+"/") {
+				if strings.HasPrefix(k, m.outKey(p.out)+"/") {
 					inOut = true
 				}
 			}
@@ -704,7 +744,7 @@ func Run(tp *tape.Tape, env *engine.Env) *engine.Outcome {
 				want[k] = v
 			}
 			for k, v := range wantTree {
-				want["proj/"+k] = v
+				want[path.Clean("proj/"+k)] = v
 			}
 			if d := diff(want, after); d != "" {
 				m.violate("output-in-configuration-order", "tree", "output tree differs from applying the responses in configuration order (completion order %v): %s", m.completion, d)
@@ -723,7 +763,7 @@ func Run(tp *tape.Tape, env *engine.Env) *engine.Outcome {
 	for _, k := range simfs.SortedKeys(after) {
 		inside := false
 		for _, p := range m.plugins {
-			if strings.HasPrefix(k, "proj/"+outRel(p.out)+"/") {
+			if strings.HasPrefix(k, m.outKey(p.out)+"/") {
 				inside = true
 			}
 		}
